@@ -1,0 +1,88 @@
+//go:build verif
+// +build verif
+
+package index
+
+import (
+	"bytes"
+	"io"
+
+	"github.com/RoaringBitmap/roaring"
+	segment "github.com/blugelabs/bluge_segment_api"
+)
+
+// VerifSeg is the persisted description of one segment of a snapshot: exactly the
+// fields that WriteTo records and ReadFrom restores. Deleted is the roaring
+// serialisation (Bitmap.ToBytes) of the deleted set, nil when there is none.
+type VerifSeg struct {
+	ID      uint64
+	Type    string
+	Version uint32
+	Deleted []byte
+}
+
+// verifFakeSegment answers Type and Version only (all WriteTo asks of a segment).
+type verifFakeSegment struct {
+	segment.Segment
+	typ string
+	ver uint32
+}
+
+func (f *verifFakeSegment) Type() string    { return f.typ }
+func (f *verifFakeSegment) Version() uint32 { return f.ver }
+
+// VerifNewSnapshot builds a snapshot whose segments carry the given ids, types,
+// versions and deleted sets, for use with (*Snapshot).WriteTo only.
+// A non-nil Deleted must be a roaring serialisation.
+func VerifNewSnapshot(epoch uint64, segs []VerifSeg) (*Snapshot, error) {
+	rv := &Snapshot{epoch: epoch, refs: 1, creator: "verif"}
+	for _, s := range segs {
+		ss := &segmentSnapshot{
+			id:      s.ID,
+			segment: &segmentWrapper{Segment: &verifFakeSegment{typ: s.Type, ver: s.Version}, refCounter: noOpRefCounter{}},
+		}
+		if s.Deleted != nil {
+			bm := roaring.NewBitmap()
+			if _, err := bm.ReadFrom(bytes.NewReader(s.Deleted)); err != nil {
+				return nil, err
+			}
+			ss.deleted = bm
+		}
+		rv.segment = append(rv.segment, ss)
+	}
+	return rv, nil
+}
+
+// VerifSegs reports what a snapshot holds per segment. For a snapshot that came
+// out of ReadFrom the type and version are the decoded fields; for a snapshot
+// with loaded segments they are asked of the segment.
+func (i *Snapshot) VerifSegs() ([]VerifSeg, error) {
+	rv := make([]VerifSeg, 0, len(i.segment))
+	for _, ss := range i.segment {
+		v := VerifSeg{ID: ss.id, Type: ss.segmentType, Version: ss.segmentVersion}
+		if ss.segment != nil && ss.segment.Segment != nil {
+			v.Type, v.Version = ss.segment.Type(), ss.segment.Version()
+		}
+		if ss.deleted != nil {
+			b, err := ss.deleted.ToBytes()
+			if err != nil {
+				return nil, err
+			}
+			v.Deleted = b
+		}
+		rv = append(rv, v)
+	}
+	return rv, nil
+}
+
+// VerifDecodeSnapshot runs the real (*Snapshot).ReadFrom on r and returns what
+// was decoded, the byte count ReadFrom reported, and its error.
+func VerifDecodeSnapshot(r io.Reader) ([]VerifSeg, int64, error) {
+	s := &Snapshot{refs: 1, creator: "verif"}
+	n, err := s.ReadFrom(r)
+	if err != nil {
+		return nil, n, err
+	}
+	segs, err2 := s.VerifSegs()
+	return segs, n, err2
+}
